@@ -47,7 +47,7 @@ D = os.path.join(SPEC, "plugins")
 PLUGIN_CRATE = os.path.join(vlib.ROOT, "harness-plugin")
 MGR_BUGS = ["LaterPluginWins", "SkippedPluginStillAsked", "ResponseHookSkippedOnPluginResponse", "NonFatalKept",
             "FatalStillServes", "LoadOrderReversed", "DoubleUnload"]
-FCGI_GENUINE = ["RequestIdZero", "ContentLengthTruncatedU16", "StderrInResponse", "UnknownTypePanics", "NonUtf8Panics",
+FCGI_GENUINE = ["RequestIdZero", "RequestUriDoubleSlash", "UnknownStatusBecomes200", "ContentLengthTruncatedU16", "StderrInResponse", "UnknownTypePanics", "NonUtf8Panics",
                 "BadStatusPanics", "ConnErrorExitsServer"]
 FCGI_BUGS = ["PadCountedAsContent", "ShortLenFormAt128"]
 MGR_ACTIONS = ["Load", "StartServing", "NewRequest", "Request_Offer", "Request_Route", "Response_Apply", "Finish", "Shutdown", "Unload"]
@@ -352,6 +352,9 @@ def http(port, method, target, headers, body, timeout=4.0):
         for l in lines[1:]:
             k, _, v = l.partition(b":")
             hl.append([k.decode("latin-1").strip().lower(), v.decode("latin-1").strip()])
+        cl = [v for k, v in hl if k == "content-length" and v.isdigit()]
+        if cl:
+            rest = rest[:int(cl[0])]
         return {"got": "response", "status": int(m.group(1)) if m else 0, "headers": hl, "body": list(rest)}
     finally:
         s.close()
@@ -436,6 +439,10 @@ def ok_script(body=b"ok", status=None, headers=(("Content-type", "text/html"),),
             {"type": 3, "id": rid, "content": [0, 0, 0, 0, 0, 0, 0, 0], "pad": 0}]
 
 
+SYMS = ["REQUEST_METHOD", "REQUEST_URI", "QUERY_STRING", "CONTENT_LENGTH", "SCRIPT_FILENAME", "DOCUMENT_ROOT", "HTTP_HOST",
+        "HTTP_COOKIE", "CONTENT_TYPE", "HTTP_USER_AGENT"]
+
+
 class PhpSession:
     """One server process with the PHP plugin (one FastCGI connection) and one responder."""
 
@@ -460,10 +467,15 @@ class PhpSession:
         if not self.srv.alive():
             died = self.srv.exit_code()
         hd = [[k, v] for k, v in r["headers"]]
+        hmap = dict((k.lower(), v) for k, v in headers)
+        B = lambda t: list(t.encode("latin-1"))
         return {"kind": "fcgi", "n": n, "note": note, "method": method, "uri": path, "query": query,
-                "req_headers": [[k.lower(), v] for k, v in [("Host", "localhost")] + list(headers)],
-                "body": list(body or b""), "docroot": self.www, "script_file": script_file or "",
-                "rx": [list(b) for b, done in rx], "rx_complete": [bool(done) for b, done in rx],
+                "req": {"method": B(method), "uri": B(path), "query": B(query), "body": list(body or b""), "host": B("localhost"),
+                        "cookie": B(hmap.get("cookie", "")), "ctype": B(hmap.get("content-type", "")), "ua": B(hmap.get("user-agent", "")),
+                        "script_file": B(script_file or ""), "docroot": B(self.www)},
+                "sym": {k: B(k) for k in SYMS},
+                "rxall": [x for b, done in rx for x in b], "rx_chunks": [len(b) for b, done in rx],
+                "rheaders": [[B(k), B(v)] for k, v in r["headers"]],
                 "script": [{"type": x["type"], "id": x["id"], "content": list(x["content"]), "pad": x["pad"]} for x in script],
                 "cuts": cuts, "then": then,
                 "got": r["got"], "status": r["status"], "headers": hd, "rbody": r["body"],
@@ -483,3 +495,255 @@ class PhpSession:
     def close(self):
         self.srv.stop()
         self.rsp.close()
+
+
+def rec(t, content, pad=0, rid=0):
+    return {"type": t, "id": rid, "content": list(content), "pad": pad}
+
+
+def split_script(rng, out, err_chunks=(), pads=(0,), end=True, rid=0):
+    """STDOUT bytes `out` cut into 1..4 records at seeded places (also inside the blank line), STDERR records in between."""
+    k = rng.randint(0, min(3, max(0, len(out) - 1)))
+    cuts = sorted(rng.sample(range(1, len(out)), k)) if k else []
+    parts = [out[a:b] for a, b in zip([0] + cuts, cuts + [len(out)])]
+    recs = []
+    errs = list(err_chunks)
+    for q in parts:
+        if errs and rng.random() < 0.7:
+            recs.append(rec(7, errs.pop(0), rng.choice(pads), rid))
+        recs.append(rec(6, q, rng.choice(pads), rid))
+    for e in errs:
+        recs.append(rec(7, e, 0, rid))
+    if end:
+        recs += [rec(6, b"", 0, rid), rec(3, [0] * 8, 0, rid)]
+    return recs
+
+
+def cgi(status, headers, body):
+    out = b"".join(("%s: %s\r\n" % h).encode() for h in headers)
+    if status is not None:
+        out = ("Status: %s\r\n" % status).encode() + out
+    return out + b"\r\n" + body
+
+
+def fcgi_cases(rng, thorough):
+    """(note, method, target, headers, body, script, cuts, then, script_file relative to www, lethal?)"""
+    H = (("Content-type", "text/html; charset=UTF-8"),)
+    cs = []
+    add = lambda *a: cs.append(a)
+    # benign: sizes, queries, cookies, segmentations
+    add("get-query-cookie", "GET", "/s.php?x=1&y=%20z", [("Cookie", "sid=abc; t=1"), ("User-Agent", "verif/1")], None,
+        split_script(rng, cgi("404 Not Found", H + (("X-Powered-By", "PHP/8"),), b"nope"), pads=(0, 3)), "bytes", "keep", "s.php", False)
+    add("post-small", "POST", "/sub/t.php", [("Content-Type", "application/x-www-form-urlencoded")], b"a=1&b=2",
+        split_script(rng, cgi(None, H, b"posted")), "random", "keep", "sub/t.php", False)
+    add("index-php-of-directory", "GET", "/sub/", [], None, split_script(rng, cgi("201 Created", H, b"made"), pads=(0, 7, 255)), "random", "keep", "sub/index.php", False)
+    for n in ([127, 128] if not thorough else [1, 126, 127, 128, 129, 255, 256, 1000]):
+        add("param-length-%d" % n, "GET", "/s.php?" + "q" * n, [("Cookie", "c" * (n + 1))], None, split_script(rng, cgi(None, H, b"len")), "random", "keep", "s.php", False)
+    add("body-65535", "POST", "/s.php", [], bytes((i * 7) % 251 for i in range(65535)), split_script(rng, cgi(None, H, b"big")), "whole", "keep", "s.php", False)
+    add("stdout-2-records-70000", "GET", "/s.php", [], None,
+        [rec(6, cgi(None, H, b"")), rec(6, b"A" * 40000, 1), rec(6, b"B" * 30000, 0), rec(6, b""), rec(3, [0] * 8)], "random", "keep", "s.php", False)
+    for i in range(40 if thorough else 3):
+        body = bytes(rng.choice(b"abc<>\n ") for _ in range(rng.randint(0, 60)))
+        st = rng.choice([None, None, "200 OK", "302 Found", "500 Internal Server Error", "418"])
+        hs = H + tuple(rng.sample([("X-A", "1"), ("Set-Cookie", "k=v; Path=/"), ("Location", "/else"), ("Cache-Control", "no-store")], rng.randint(0, 2)))
+        add("random-%d" % i, rng.choice(["GET", "POST"]), "/s.php" + rng.choice(["", "?a=b", "?k=%2F&l="]), [], None if i % 2 else bytes(rng.randint(0, 255) for _ in range(rng.randint(1, 300))),
+            split_script(rng, cgi(st, hs, body), pads=(0, 1, 8)), rng.choice(["random", "bytes", "whole"]), "keep", "s.php", False)
+    # the expected deviations of the code as found (one server process each where the server may die)
+    add("stderr-interleaved", "GET", "/s.php", [], None, split_script(rng, cgi(None, H, b"ABCD"), err_chunks=[b"PHP Warning: w"], pads=(0, 5)), "random", "keep", "s.php", False)
+    add("body-65536", "POST", "/s.php", [], b"Z" * 65536, split_script(rng, cgi(None, H, b"big")), "whole", "keep", "s.php", False)
+    add("non-utf8-output", "GET", "/s.php", [], None, split_script(rng, cgi(None, (("Content-type", "image/png"),), b"\x89PNG\xff\xfe\x80")), "random", "keep", "s.php", True)
+    add("status-not-a-number", "GET", "/s.php", [], None, split_script(rng, cgi("abc def", H, b"x")), "random", "keep", "s.php", True)
+    add("unknown-record-type", "GET", "/s.php", [], None, [rec(6, cgi(None, H, b"x")), rec(12, [1, 2])] + [rec(6, b""), rec(3, [0] * 8)], "random", "keep", "s.php", True)
+    add("responder-closes", "GET", "/s.php", [], None, [rec(6, cgi(None, H, b"partial"))], "whole", "close", "s.php", True)
+    return cs
+
+
+def run_fcgi_cases(server, php, work, www, cases, rng):
+    recs, probes = [], {}
+    sess = None
+    n = 0
+    try:
+        for (note, method, target, headers, body, script, cuts, then, sf, lethal) in cases:
+            n += 1
+            if sess is None or lethal or not sess.srv.alive():
+                if sess:
+                    sess.close()
+                sess = PhpSession(server, php, work, www, rng)
+                if sess.up != "up":
+                    raise vlib.ToolError("the server with the PHP plugin did not come up (%s):\n%s" % (sess.up, sess.srv.log_text()[-800:]))
+            c = sess.case(n, method, target, headers, body, script, cuts=cuts, then=then, script_file=os.path.join(www, sf), note=note)
+            recs.append(c)
+            if lethal or c["got"] != "response":
+                probes[n] = sess.probe()
+    finally:
+        if sess:
+            sess.close()
+    return recs, probes
+
+
+def tlc(cfg, module, **kw):
+    kw.setdefault("timeout", TO)
+    kw.setdefault("workers", 1)
+    kw.setdefault("heap", "2g")
+    kw.setdefault("work_id", "c15plug" + re.sub(r"\W", "", cfg)[:24])
+    return run_tlc(module, cfg, D, **kw)
+
+
+def validate(module, cfg, recs, path, label):
+    vlib.write_lines(path, recs)
+    t = tlc(cfg, module, env={"TRACE": path}, heap="3g")
+    summ = [x for x in t.prints if isinstance(x, dict) and "records" in x]
+    if not summ or summ[-1]["records"] != len(recs):
+        raise vlib.ToolError("%s (%s) did not read the %d records:\n%s" % (module, label, len(recs), t.out[-1500:]))
+    return t, summ[-1]
+
+
+def mgr_configs(rng, thorough):
+    L, P = ["ok", "nonfatal", "fatal"], PREFIXES
+    fixed = [[{"load": "ok", "prefix": "pa"}, {"load": "nonfatal", "prefix": "p"}, {"load": "ok", "prefix": "p"}],
+             [{"load": "ok", "prefix": "p"}, {"load": "ok", "prefix": "pa"}, {"load": "ok", "prefix": "pb"}],
+             [{"load": "ok", "prefix": ""}, {"load": "fatal", "prefix": "p"}, {"load": "ok", "prefix": "p"}],
+             [{"load": "nonfatal", "prefix": "p"}, {"load": "ok", "prefix": "pb"}],
+             []]
+    out = list(fixed)
+    if thorough:
+        out += [[{"load": a, "prefix": p}, {"load": b, "prefix": q}] for a in L for b in L for p in P[1:] for q in P[1:]]
+    for _ in range(60 if thorough else 4):
+        out.append([{"load": rng.choice(L + ["ok", "ok"]), "prefix": rng.choice(P)} for _ in range(rng.randint(1, 3))])
+    return out
+
+
+def with_ans(r):
+    r = copy.deepcopy(r)
+    for c in r["cfg"]:
+        c["ans"] = [p for p in PATHS if c["prefix"] and p.startswith(c["prefix"])]
+    return r
+
+
+def run_part(ctx, tier):
+    thorough = tier == "thorough"
+    t0 = time.time()
+    try:
+        server, hv, php = build_all()
+    except vlib.ToolError as e:
+        ctx.add_part("plugins", built=False, note="reduced coverage: the model was not bound to the code")
+        ctx.violation("plugins: the feature does not build on this tree, nothing was bound: %s" % str(e)[-700:], {"kind": "c15plug-build", "error": str(e)[-3000:]})
+        return
+    t_build = time.time() - t0
+    work = os.path.join(vlib.workdir("C15plug"), "run-%d" % os.getpid())
+    os.makedirs(work, exist_ok=True)
+    try:
+        return _run(ctx, thorough, server, hv, php, work, t_build)
+    finally:
+        shutil.rmtree(work, ignore_errors=True)
+
+
+def _run(ctx, thorough, server, hv, php, work, t_build):
+    rng = random.Random(ctx.seed * 7919 + 15)
+    www = make_www(work)
+    ex = ThreadPoolExecutor(max_workers=4)        # <= 4 TLC processes of 1 worker each at a time
+    jobs = {}
+    jobs["mc_plugins"] = ex.submit(tlc, "MC_Plugins_%s.cfg" % ("thorough" if thorough else "quick"), "MC_Plugins.tla", coverage=True)
+    jobs["mc_fcgi"] = ex.submit(tlc, "MC_Fcgi.cfg", "MC_Fcgi.tla", coverage=True)
+    mgr_bugs = MGR_BUGS if thorough else MGR_BUGS[:3]
+    f_devs = [d for d in FCGI_GENUINE if d not in ("NonUtf8Panics", "BadStatusPanics", "RequestUriDoubleSlash", "UnknownStatusBecomes200")]     # those two are judged on traces only
+    f_devs = f_devs if thorough else f_devs[:3]
+    for b in mgr_bugs:
+        jobs["bug:" + b] = ex.submit(tlc, "MC_Plugins_bug_%s.cfg" % b, "MC_Plugins.tla")
+    for d in f_devs:
+        jobs["dev:" + d] = ex.submit(tlc, "MC_Fcgi_dev_%s.cfg" % d, "MC_Fcgi.tla")
+    for b in (FCGI_BUGS if thorough else FCGI_BUGS[:1]):
+        jobs["fbug:" + b] = ex.submit(tlc, "MC_Fcgi_bug_%s.cfg" % b, "MC_Fcgi.tla")
+
+    # ---- the real server: manager sessions (4 at a time) and FastCGI cases, while TLC explores -------------------
+    cfgs = mgr_configs(rng, thorough)
+    ex2 = ThreadPoolExecutor(max_workers=4)
+    futs = [ex2.submit(manager_session, server, hv, work, www, c, i + 1) for i, c in enumerate(cfgs)]
+    cases = fcgi_cases(rng, thorough)
+    frecs, probes = run_fcgi_cases(server, php, work, www, cases, rng)
+    mrecs = [with_ans(f.result()) for f in futs]
+    ex2.shutdown()
+
+    ft1 = ex.submit(validate, "Trace_Plugins.tla", "Trace_Plugins.cfg", mrecs, os.path.join(work, "mgr.ndjson"), "manager sessions")
+    ft2 = ex.submit(validate, "Trace_Fcgi.tla", "Trace_Fcgi.cfg", frecs, os.path.join(work, "fcgi.ndjson"), "FastCGI exchanges")
+
+    # ---- 1./2. model checking and sensitivity ------------------------------------------------------------------------
+    r = jobs["mc_plugins"].result()
+    ctx.add_tlc("plugins: MC_Plugins (every configuration of <= %d plugins x every request path; order, first-Some-wins, response hooks, fatal refuses, unload once)" % (3 if thorough else 2), r)
+    ctx.require_tlc_ok("MC_Plugins", r)
+    ctx.require_cover("MC_Plugins", r, MGR_ACTIONS)
+    r = jobs["mc_fcgi"].result()
+    ctx.add_tlc("plugins: MC_Fcgi (Decode(Encode(r)) = r over lengths 0,1,127,128,129,255,256,300 and pads 0,1,7,255; name-value pairs over 127/128; request streams incl. 65535/65536 split; reader machine)", r)
+    ctx.require_tlc_ok("MC_Fcgi", r)
+    ctx.require_cover("MC_Fcgi", r, ["C_Stdout", "C_Stderr", "C_End", "C_Unknown", "C_Eof"])
+    for k, j in jobs.items():
+        if ":" in k:
+            r = j.result()
+            ctx.add_tlc("plugins sensitivity %s" % k, r, note="must be violated")
+            if r.violation is None:
+                raise vlib.ToolError("sensitivity: deviation %s is not refuted by TLC" % k)
+
+    # ---- 3. traces -----------------------------------------------------------------------------------------------------
+    t1, s1 = ft1.result()
+    ctx.add_tlc("plugins: Trace_Plugins over %d server runs with the logging test plugin (%d requests)" % (s1["records"], s1["requests"]), t1)
+    for rj in s1["rejected"][:6]:
+        m = mrecs[rj["index"] - 1]
+        ctx.violation("plugin manager: server run %d is not a behaviour of Plugins.tla: %s; configuration (file order) %s" % (
+            rj["index"], ", ".join(rj["problems"]), json.dumps(m["cfg"])), {"kind": "c15plug-mgr", "problems": rj["problems"], "record": m})
+    t2, s2 = ft2.result()
+    ctx.add_tlc("plugins: Trace_Fcgi over %d exchanges of the real PHP plugin with the scripted responder" % s2["records"], t2)
+    by_dev = {}
+    for nd in s2["needs"]:
+        for d in nd["needs"]:
+            by_dev.setdefault(d, []).append(nd["index"])
+    for d, idx in sorted(by_dev.items()):
+        c = frecs[idx[0] - 1]
+        small = {k: (v if not isinstance(v, list) or len(v) < 600 else v[:300] + ["... %d more" % (len(v) - 300)]) for k, v in c.items()}
+        small["req"] = {k: (v if len(v) < 600 else v[:100] + ["... %d more" % (len(v) - 100)]) for k, v in c["req"].items()}
+        what = ("FastCGI client: %d of %d exchanges need the deviation %s (first: case '%s' %s %s%s, body %d bytes: HTTP %s %s%s%s)" % (
+            len(idx), len(frecs), d, c["note"], c["method"], c["uri"], ("?" + c["query"]) if c["query"] else "", len(c["req"]["body"]),
+            c["got"], c["status"], ", server process died with exit code %s" % c["exit_code"] if c["died"] else "",
+            (", afterwards file/php served: %s" % (probes.get(c["n"]),)) if c["n"] in probes else ""))
+        ctx.violation(what, {"kind": "c15plug-fcgi", "deviation": d, "cases": len(idx), "record": small}, dev=None if d.startswith("UNEXPLAINED") else d)
+    ctx.cov["evaluations"] += s1["requests"] + len(frecs)
+    ctx.cov["distinct_nontrivial"] += sum(1 for m in mrecs for q in m["reqs"] if q["by"]) + sum(1 for c in frecs if c["rxall"])
+    ctx.cov["traces_validated_against_impl"] += s1["records"] + s2["records"]
+    ctx.add_part("plugins", built=True, build_s=round(t_build, 1), manager_runs=len(mrecs), manager_requests=s1["requests"],
+                 refused_starts=sum(1 for m in mrecs if m["startup"] == "refused"), fcgi_exchanges=len(frecs),
+                 fcgi_bytes_received=sum(len(c["rxall"]) for c in frecs), server_deaths=sum(1 for c in frecs if c["died"]),
+                 deviations_needed={d: len(i) for d, i in by_dev.items()},
+                 rule="nontrivial = a request answered by a plugin, or one that reached the FastCGI responder")
+    ctx.sample("plugins [ok pa][nonfatal p][ok p]: GET /pb/x -> offers 1,3; by 3; on_response 1,3")
+
+    # ---- 4. binding self-test (on material whose only needs are named deviations) ----------------------------------------
+    clean = [c for c, nd in zip(frecs, s2["needs"]) if not any(x.startswith("UNEXPLAINED") for x in nd["needs"]) and len(c["rxall"]) < 4000 and c["got"] == "response"]
+    mclean = [m for i, m in enumerate(mrecs) if (i + 1) not in [rj["index"] for rj in s1["rejected"]] and any(q["offers"] for q in m["reqs"])]
+    if clean and mclean:
+        c = copy.deepcopy(clean[0])
+        k = bytes(c["rxall"]).find(b"REQUEST_METHOD") + len("REQUEST_METHOD")
+        c["rxall"][k] ^= 1                                    # one byte of the method the responder was told
+        c2 = copy.deepcopy(clean[0])
+        c2["rbody"] = c2["rbody"] + [33]                      # one byte more in the HTTP body than STDOUT carried
+        _, s3 = validate("Trace_Fcgi.tla", "Trace_Fcgi_asfound.cfg", [c, c2], os.path.join(work, "self.ndjson"), "self-test")
+        if s3["rejected"] != [1, 2]:
+            raise vlib.ToolError("binding self-test: Trace_Fcgi accepted a corrupted exchange: %s" % s3)
+        m = copy.deepcopy(mclean[0])
+        q = [q for q in m["reqs"] if q["offers"]][0]
+        q["offers"] = q["offers"][1:] if len(q["offers"]) > 1 else q["offers"] + [{"id": 9, "ans": False}]     # one log line lost / invented
+        m2 = copy.deepcopy(mclean[0])
+        m2["loads"] = m2["loads"][::-1] if len(m2["loads"]) > 1 else []
+        _, s4 = validate("Trace_Plugins.tla", "Trace_Plugins.cfg", [m, m2], os.path.join(work, "self2.ndjson"), "self-test")
+        if [x["index"] for x in s4["rejected"]] != [1, 2]:
+            raise vlib.ToolError("binding self-test: Trace_Plugins accepted a corrupted call log: %s" % s4)
+        ctx.add_part("plugins self-test", corrupted_rejected=4)
+    else:
+        ctx.add_part("plugins self-test", skipped="no exchange validated cleanly on this tree")
+
+
+if __name__ == "__main__":
+    tier = sys.argv[1] if len(sys.argv) > 1 else "quick"
+    vlib.EVIDENCE = os.path.join(vlib.WORK, "C15plug")
+    vlib.REPLAYS = os.path.join(vlib.WORK, "C15plug")
+    ctx = vlib.Ctx("C15", tier, "growth:plugins")
+    vlib.run_growth(ctx, "plugins", run_part, tier)
+    sys.exit(ctx.finish())
